@@ -339,6 +339,16 @@ def main():
                     notes.append(f"{fname} shard {si}: {rec['model_err']}")
                 fails, mism = compare(rec, fam)
                 nlines += sum(1 for l in rec["lines"] if not l.startswith("case "))
+                # what the real code answered, per op kind (branches / error kinds reached)
+                oc = stats.setdefault("impl_outcomes", {})
+                for l, im in zip(rec["lines"], rec["impl"]):
+                    if l.startswith("case ") or im is None:
+                        continue
+                    t = first_tok(im)
+                    if t in ("!", "ok") and len(im.split(" ")) > 1:
+                        t = t + " " + im.split(" ")[1]
+                    key = l.split(" ", 1)[0] + " -> " + re.sub(r"[0-9a-f]{6,}|\d+", "#", t)[:40]
+                    oc[key] = oc.get(key, 0) + 1
                 for (ci, li, txt) in fails:
                     oracle_fail_total.append((fname, shards[si][ci], rec["lines"][li], txt))
                 for (ci, li, txt) in mism:
